@@ -5,6 +5,8 @@ import (
 	"go/ast"
 	"go/parser"
 	"go/types"
+	"os"
+	"path/filepath"
 	"runtime"
 	"sort"
 	"strings"
@@ -15,9 +17,7 @@ import (
 
 func parseTypeExpr(s string) (ast.Expr, error) { return parser.ParseExpr(s) }
 
-func installHooks(eng *Engine, prop string) {}
 
-func (eng *Engine) lemmaObligations(prop string) ([]*Obligation, error) { return nil, nil }
 
 func (eng *Engine) canaries(prop string, results []*FuncResult) []*Obligation { return nil }
 
@@ -91,7 +91,7 @@ func cmdSweepAll(args []string) int {
 			continue
 		}
 		t0 := time.Now()
-		r := eng.verifyFunc(fn, eng.contractFor(fn), []string{"X"}, nil, "")
+		r := eng.verifyFunc(fn, eng.contractFor(fn), []string{"X"}, scenarioT{})
 		el := time.Since(t0).Seconds()
 		if r.Err != nil {
 			fmt.Printf("ERR   %-60s %v\n", fn.String(), r.Err)
@@ -125,4 +125,73 @@ func cmdSweepAll(args []string) int {
 	}
 	fmt.Println("total obligations:", tot)
 	return 0
+}
+
+// lemmaObligations loads /verif/spec/lemmas/*.smt2: stand-alone lemmas over the
+// spec functions / contracts (no code). Header: ";; lemma NAME props Cxx mode bv needs a,b".
+func (eng *Engine) lemmaObligations(prop string) ([]*Obligation, error) {
+	files, _ := filepath.Glob(filepath.Join(eng.verifDir, "spec", "lemmas", "*.smt2"))
+	sort.Strings(files)
+	var out []*Obligation
+	for _, f := range files {
+		data, err := os.ReadFile(f)
+		if err != nil {
+			return nil, err
+		}
+		var cur *Obligation
+		var curBody []string
+		flush := func() {
+			if cur == nil {
+				return
+			}
+			for _, l := range splitSexprs(strings.Join(curBody, "\n")) {
+				cur.Script.emit(l)
+			}
+			cur.Prefix = cur.Script.mark()
+			out = append(out, cur)
+			cur = nil
+			curBody = nil
+		}
+		for ln, line := range strings.Split(string(data), "\n") {
+			if strings.HasPrefix(line, ";; lemma ") {
+				flush()
+				fs := strings.Fields(strings.TrimPrefix(line, ";; lemma "))
+				name := fs[0]
+				mode := ModeBV
+				var props, needs []string
+				for i := 1; i < len(fs); i++ {
+					switch fs[i] {
+					case "props":
+					case "mode":
+					case "bv":
+					case "int":
+						mode = ModeInt
+					case "needs":
+						if i+1 < len(fs) {
+							needs = strings.Split(fs[i+1], ",")
+							i++
+						}
+					default:
+						if strings.HasPrefix(fs[i], "C") {
+							props = append(props, fs[i])
+						}
+					}
+				}
+				if !hasProp(props, prop) {
+					continue
+				}
+				sc := newScript(mode)
+				for _, n := range needs {
+					eng.spec.needBlock(sc, n)
+				}
+				cur = &Obligation{Name: "lemma." + name, Kind: "lemma", Func: "lemma", Pos: fmt.Sprintf("spec/lemmas/%s:%d", filepath.Base(f), ln+1), Goal: "false", PC: "true", Script: sc, Expect: "unsat", Props: props}
+				continue
+			}
+			if cur != nil {
+				curBody = append(curBody, line)
+			}
+		}
+		flush()
+	}
+	return out, nil
 }
